@@ -4,7 +4,7 @@ package sctp
 // API recorder and the plumbing shared by all property scenarios.
 
 import (
-	"sync/atomic"
+	"os"
 	"errors"
 	"fmt"
 	"io"
@@ -88,9 +88,9 @@ type simLogger struct{ w *world }
 
 func (l *simLogger) rec(level, msg string) {
 	w := l.w
-	w.logMu.Lock()
+	vsimHLock(&w.logMu)
 	w.logs = append(w.logs, logLine{at: w.now(), level: level, msg: msg})
-	w.logMu.Unlock()
+	vsimHUnlock(&w.logMu)
 	if w.verbose != nil {
 		w.verbose(fmt.Sprintf("LOG %s %s", level, msg))
 	}
@@ -487,10 +487,12 @@ func (w *world) run(cond func() bool, deadline time.Duration) stopReason {
 			w.violate(pp, "panic", "%s", s.panicMsg)
 			return stopViolation
 		}
-		if n := atomic.SwapInt64(&vsimLoopN, 0); n > w.maxLoop {
-			w.maxLoop = n
-			if n > loopSoftLimit {
-				w.violate("C03", "unbounded-step", "%d loop iterations were executed between two scheduling points (task %s): the time to process one event is not bounded by its size", n, s.lastName())
+		nl := vsimLoopN
+		vsimLoopN = 0
+		if nl > w.maxLoop {
+			w.maxLoop = nl
+			if nl > loopSoftLimit {
+				w.violate("C03", "unbounded-step", "%d loop iterations were executed between two scheduling points (task %s): the time to process one event is not bounded by its size", nl, s.lastName())
 				return stopViolation
 			}
 		}
@@ -574,15 +576,20 @@ func (w *world) run(cond func() bool, deadline time.Duration) stopReason {
 		if wait <= 0 {
 			wait = time.Nanosecond
 		}
+		vsimRaceOff()
 		select {
 		case <-s.wake:
 		default:
 		}
+		vsimRaceOn()
 		timer.Reset(wait)
+		vsimRaceOff()
 		select {
 		case <-s.wake:
+			vsimRaceOn()
 			timer.Stop()
 		case <-timer.C:
+			vsimRaceOn()
 		}
 	}
 }
@@ -998,6 +1005,14 @@ func runOne(t *testing.T, sc scenario, o runOpts) (res *runResult) {
 			}()
 			sc(w)
 			w.teardown()
+			if vsimRaceBuild {
+				// race builds run one seed per process and are judged from the detector's reports
+				v := "none"
+				if w.viol != nil {
+					v = w.viol.Prop + "/" + w.viol.Class
+				}
+				fmt.Fprintf(os.Stderr, "VSIM-END seed=%d steps=%d violation=%s aborted=%q\n", o.seed, w.sim.nSteps, v, w.aborted)
+			}
 			if o.keepTapes {
 				res.Tapes = map[string][]uint32{}
 				for name, tp := range tapes {
